@@ -62,6 +62,8 @@ type VC struct {
 	ifaceImpl  map[string]bool
 	inlineDep  int
 	paramVals  map[string]specVal // for model extraction
+	entry      *hstate
+	qf         int                // >0: quantifier-free candidate search with this length bound
 	notes      []string
 }
 
@@ -77,7 +79,37 @@ func newVC(eng *Engine, fn *ssa.Function, c *Contract) *VC {
 	return vc
 }
 
-func (vc *VC) emit(s string) { vc.out = append(vc.out, s) }
+func (vc *VC) emit(s string) {
+	if vc.qf > 0 && strings.HasPrefix(s, "(assert (forall") {
+		return // quantifier-free candidate search: quantified axioms are dropped (candidates are validated by replay)
+	}
+	vc.out = append(vc.out, s)
+}
+
+// rowAxiom constrains a fresh row: for all i, row[i] = body(i).
+func (vc *VC) rowAxiom(row string, body func(i string) string) {
+	if vc.qf > 0 {
+		for k := 0; k < vc.qf+4; k++ {
+			ks := fmt.Sprint(k)
+			vc.out = append(vc.out, fmt.Sprintf("(assert (= (select %s %s) %s))", row, ks, body(ks)))
+		}
+		return
+	}
+	vc.emit(fmt.Sprintf("(assert (forall ((i Int)) (! (= (select %s i) %s) :pattern ((select %s i)))))", row, body("i"), row))
+}
+
+// quantIdx renders a bounded-index quantified formula (used inside reachability definitions).
+func (vc *VC) quantIdx(guard func(i string) string, body func(i string) string, pat func(i string) string) string {
+	if vc.qf > 0 {
+		var cs []string
+		for k := 0; k < vc.qf+2; k++ {
+			ks := fmt.Sprint(k)
+			cs = append(cs, implies(guard(ks), body(ks)))
+		}
+		return and(cs...)
+	}
+	return fmt.Sprintf("(forall ((i Int)) (! (=> %s %s) :pattern (%s)))", guard("i"), body("i"), pat("i"))
+}
 
 func (vc *VC) unsupported(f string, a ...interface{}) {
 	panic(unsupportedErr{fmt.Sprintf(f, a...)})
@@ -317,6 +349,10 @@ func (vc *VC) eltFn(srt string) string {
 	fn := "elt." + sanitize(srt)
 	if !vc.declared[fn] {
 		vc.declared[fn] = true
+		if vc.qf > 0 {
+			vc.emit(fmt.Sprintf("(define-fun %s ((h (Array Int (Array Int %s))) (s Slice) (i Int)) %s (select (select h (s-arr s)) (+ (s-off s) i)))", fn, srt, srt))
+			return fn
+		}
 		vc.emit(fmt.Sprintf("(declare-fun %s ((Array Int (Array Int %s)) Slice Int) %s)", fn, srt, srt))
 		vc.emit(fmt.Sprintf("(assert (forall ((h (Array Int (Array Int %s))) (s Slice) (i Int)) (! (= (%s h s i) (select (select h (s-arr s)) (+ (s-off s) i))) :pattern ((%s h s i)))))", srt, fn, fn))
 	}
